@@ -35,7 +35,10 @@ type h6Cfg struct {
 	peers                int
 	rf, cp, cb           []h6Pat
 	rf0                  []h6Pat // fate of Close's Refresh(0)
+	refused              bool    // the application also writes, once, to a peer the server refuses (403)
 }
+
+var h6RefusedPeer = &net.UDPAddr{IP: net.IPv4(10, 9, 9, 9).To4(), Port: 9000}
 
 type h6Tx struct {
 	kind string
@@ -50,6 +53,7 @@ type h6Ev struct {
 }
 
 type h6World struct {
+	nRefusedTx int
 	vt     *vhT
 	w      *h2World
 	cfg    h6Cfg
@@ -169,6 +173,14 @@ func (k *h6World) onDatagram(from, to net.Addr, b []byte) bool {
 					k.rfIdx++
 				}
 			case stun.MethodCreatePermission:
+				var pa proto.PeerAddress
+				if pa.GetFrom(m) == nil && pa.IP.Equal(h6RefusedPeer.IP) && k.nRefusedTx < 1 {
+					// the application's one write to the refused peer: outside the model's timeline and the loss patterns.
+					// (Only the first such request: a LATER CreatePermission that still leads with this peer is the client
+					// refreshing an entry it should have dropped, and takes its place in the timeline like any other.)
+					k.nRefusedTx++
+					return false
+				}
 				tx.kind = "cp"
 				tx.pat = h6Pick(k.cfg.cp, k.cpIdx)
 				k.cpIdx++
@@ -235,7 +247,11 @@ func newH6World(vt *vhT, cfg h6Cfg) *h6World {
 	scfg := ServerConfig{AllocationLifetime: time.Duration(cfg.life) * time.Millisecond,
 		PermissionTimeout: time.Duration(cfg.permT) * time.Millisecond, ChannelBindTimeout: time.Duration(cfg.chanT) * time.Millisecond}
 	k := &h6World{vt: vt, cfg: cfg, tx: map[[stun.TransactionIDSize]byte]*h6Tx{}, cbIdx: make([]int, cfg.peers), born: time.Now()}
-	k.w = newH2World(vt, scfg, []*h2Listener{{ip: net.ParseIP("10.0.0.1").To4()}}, true, false)
+	l0 := &h2Listener{ip: net.ParseIP("10.0.0.1").To4()}
+	if cfg.refused {
+		l0.vetoed = []net.IP{h6RefusedPeer.IP}
+	}
+	k.w = newH2World(vt, scfg, []*h2Listener{l0}, true, false)
 	k.w.n.dropWrite = k.onDatagram
 	k.cpc, _ = k.w.n.listenUDP(net.ParseIP("10.0.0.2").To4(), 4000, true)
 	for i := 0; i < cfg.peers; i++ {
@@ -370,6 +386,18 @@ func (k *h6World) wr(p int, compat bool) {
 	}
 }
 
+// the application writes to a peer the server refuses: WriteTo must fail, and nothing else may change — in particular
+// the refused peer must not stay in the client's permission table, where every later refresh would name it and be
+// refused as a whole (the other peers would then lose their permissions: probe-lost)
+func (k *h6World) wrRefused() {
+	_, err := k.conn.WriteTo([]byte("probe-refused"), h6RefusedPeer)
+	k.vt.Note("write to the refused peer at t=%d ms: err=%v", k.now(), err)
+	if err == nil {
+		k.vt.Alarm("refused-peer-written", "WriteTo a peer whose CreatePermission the server refused returned no error at t=%d ms", k.now())
+	}
+	k.vt.Stat("h6.refused-write")
+}
+
 // peer p writes a probe to the relayed address
 func (k *h6World) pw(p int, compat bool) {
 	k.vt.OpSync("kpw %d", p)
@@ -486,6 +514,7 @@ func runH6History(t *testing.T, vt *vhT, cfg h6Cfg, tag string, totalMs int, bus
 		r := vt.Rng
 		elapsed := 0
 		closed := false
+		didRefused := false
 		for (elapsed < totalMs || closeAt > 0) && !closed {
 			var d int
 			if busy {
@@ -502,6 +531,11 @@ func runH6History(t *testing.T, vt *vhT, cfg h6Cfg, tag string, totalMs int, bus
 				k.close(compat)
 				closed = true
 				break
+			}
+			if cfg.refused && !didRefused && elapsed >= 60000 {
+				k.wr(0, compat)
+				k.wrRefused()
+				didRefused = true
 			}
 			if cfg.peers > 0 {
 				for n := r.Intn(3); n > 0; n-- {
@@ -543,6 +577,9 @@ func TestVerifH6(t *testing.T) {
 	runH6History(t, vt, h6Cfg{life: 2 * 60 * min}, "life-2h", 3*60*min+30*min, false, 0)
 	// directed: many peers (the permission refresh no longer fits one datagram of the server's inbound MTU)
 	runH6History(t, vt, h6Cfg{peers: 150}, "many-peers", 13*min, false, 0)
+	// directed: one write to a peer the server refuses, in the middle of ordinary keep-alive: the other peers stay reachable
+	runH6History(t, vt, h6Cfg{peers: 2, refused: true}, "refused-peer", 25*min, false, 0)
+	runH6History(t, vt, h6Cfg{peers: 1, refused: true}, "refused-peer-busy", 14*min, true, 0)
 	// directed: Close while the client's nonce is stale (no peers: nothing refreshes between 60 and 65 min)
 	runH6History(t, vt, h6Cfg{}, "close-stale-nonce", 0, false, 61*min+30000)
 	runH6History(t, vt, h6Cfg{}, "close-fresh-nonce", 0, false, 59*min)
